@@ -23,7 +23,8 @@ class Refused(Exception):
 def _libs():
     from proof_generation.proofs.propositional import Propositional
     from proof_generation.tautology import Tautology
-    return {'Propositional': Propositional, 'Tautology': Tautology}
+    from proof_generation.proofs.substitution import Substitution
+    return {'Propositional': Propositional, 'Tautology': Tautology, 'Substitution': Substitution}
 
 
 SKIP = {'main', 'serialize', 'import_module', 'execute_full', 'execute_gamma_phase', 'execute_claims_phase',
@@ -45,6 +46,7 @@ def lib_methods(cls):
             ann = str(p.annotation)
             if ann == 'Pattern': kinds.append('p')
             elif ann == 'ProofThunk': kinds.append('t')
+            elif ann == 'EVar': kinds.append('v')
             else:
                 ok = False
         if ok and str(sig.return_annotation) == 'ProofThunk':
@@ -117,7 +119,8 @@ class Builder:
             elif kind == 'pinst':
                 th = px.instantiate(self.pool[s[1]], {i: B.to_py(T.tup(t)) for i, t in s[2]})
             elif kind == 'lib':
-                args = [B.to_py(T.tup(a[1])) if a[0] == 'p' else self.pool[a[1]] for a in s[2]]
+                from proof_generation.pattern import EVar as _EVar
+                args = [B.to_py(T.tup(a[1])) if a[0] == 'p' else _EVar(a[1]) if a[0] == 'v' else self.pool[a[1]] for a in s[2]]
                 if any(a is None for a in args):
                     raise Refused('premise unavailable')
                 th = getattr(self.lib, s[1])(*args)
@@ -166,7 +169,7 @@ def compose(seed, adversarial=False):
     k = Knobs(rng)
     k.p_illformed = 0.0
     p_not = rng.choice([0.2, 0.4, 0.6])
-    lib_name = rng.choice(['Propositional', 'Propositional', 'Tautology', 'none'])
+    lib_name = rng.choice(['Propositional', 'Propositional', 'Propositional', 'Tautology', 'Tautology', 'Substitution', 'none'])
     pool_terms = []
 
     def pat(depth=None):
@@ -262,9 +265,12 @@ def compose(seed, adversarial=False):
                 continue
             mvs = T.metavars(ce)
             ids = sorted(set(m[1] for m in mvs))
-            if not ids:
+            if not ids and rng.random() < 0.8:
                 continue
             chosen = [x for x in ids if rng.random() < 0.7] or ids[:1]
+            if rng.random() < 0.2 or not chosen:
+                stray = rng.choice([x for x in range(6) if x not in ids])      # a key that does not occur in the conclusion
+                chosen.append(stray)
             rng.shuffle(chosen)
             delta = []
             legal = True
@@ -285,6 +291,8 @@ def compose(seed, adversarial=False):
                 for kd in kinds:
                     if kd == 'p':
                         args.append(['p', pat()])
+                    elif kd == 'v':
+                        args.append(['v', rng.choice(list(k.evars) + [5])])
                     else:
                         if not live:
                             ok = False
